@@ -126,10 +126,14 @@ def build(c):
 def check_case(run, c, row, nprng, k):
     sh = tuple(c["shape"])
     size = int(np.prod(sh))
-    for dt in (np.float64, np.int16, np.float32):
-        for fill in ("arange", "random"):
+    for dt in (np.float64, np.int16, np.float32, np.int64):
+        for fill in ("arange", "random") if dt != np.int64 else ("huge",):
             if fill == "arange":
                 x = (np.arange(size) + 1).reshape(sh).astype(dt)
+            elif fill == "huge":
+                # 64-bit integers no double can hold: the copies of the input (the order-0 block, every Stack cell)
+                # must still be the input's samples exactly; the regression values themselves are not compared here
+                x = (np.arange(size, dtype=np.int64) * 3 + (1 << 60) + 1).reshape(sh)
             else:
                 x = nprng.randint(-9, 10, size=sh).astype(dt)
             xflat = x.reshape(-1)
@@ -163,6 +167,12 @@ def check_case(run, c, row, nprng, k):
                     return
             else:
                 for i, cell in enumerate(row["map"]):
+                    if fill == "huge":
+                        if len(cell["terms"]) == 1 and cell["terms"][0][0] >= 0 and cell["terms"][0][1] == cell["den"] and int(g[i]) != int(xflat[cell["terms"][0][0]]):
+                            run.violation({"kind": "deltas_input_block_not_the_input", "case": c, "dtype": "int64", "cell": i, "layout": layout,
+                                           "got": int(g[i]), "input_sample": int(xflat[cell["terms"][0][0]])})
+                            return
+                        continue
                     ex = expected_cell(cell, xflat, c.get("cval", 0))
                     if np.issubdtype(dt, np.integer):
                         lo = int(ex) if ex >= 0 else -int(-ex)  # truncation toward zero, as astype does
